@@ -25,7 +25,7 @@ def standard(pid, tier, seed, collect, trusted, search_script, search_spec, thor
     if dis:
         res.faults.append("back ends disagree on %s" % dis[0].name)
         return res
-    bad = [o for o in res.obligations if o.kind != "CANARY" and o.result != "unsat"]
+    bad = [o for o in res.obligations if o.kind not in ("CANARY", "PROBE") and o.result != "unsat"]
     if bad or res.struct:
         names = [o.name for o in bad] + ["STRUCT:" + s.ident for s in res.struct]
         found = None
